@@ -23,6 +23,7 @@ type Clause struct {
 type GhostUpd struct {
 	LHS SExpr
 	RHS SExpr
+	Props []string // property label (layer) of the update; empty = always
 	Src string
 }
 
@@ -244,10 +245,12 @@ func (ps *PkgSpec) parseFile(file, data string) error {
 			cur = nil
 		case "ghost":
 			if cur != nil && strings.Contains(rest, ":=") {
-				g, err := parseGhostUpd(rest)
+				props, gb := splitProps(rest)
+				g, err := parseGhostUpd(gb)
 				if err != nil {
 					return errf("%v", err)
 				}
+				g.Props = props
 				cur.Ghosts = append(cur.Ghosts, g)
 				continue
 			}
@@ -311,17 +314,19 @@ func (ps *PkgSpec) parseFile(file, data string) error {
 			body := strings.TrimSpace(rest[ci+1:])
 			switch {
 			case strings.HasPrefix(body, "ghost "):
-				g, err := parseGhostUpd(strings.TrimSpace(body[6:]))
+				props, gb := splitProps(strings.TrimSpace(body[6:]))
+				g, err := parseGhostUpd(gb)
 				if err != nil {
 					return errf("%v", err)
 				}
-				an.Kind, an.Ghost, an.Src = "ghost", g, body
+				an.Kind, an.Ghost, an.Src, an.Props = "ghost", g, body, props
 			case strings.HasPrefix(body, "ghostmap "):
-				gm, err := parseGhostMap(strings.TrimSpace(body[9:]))
+				props, gb := splitProps(strings.TrimSpace(body[9:]))
+				gm, err := parseGhostMap(gb)
 				if err != nil {
 					return errf("%v", err)
 				}
-				an.Kind, an.GhostMap, an.Src = "ghostmap", gm, body
+				an.Kind, an.GhostMap, an.Src, an.Props = "ghostmap", gm, body, props
 			case strings.HasPrefix(body, "havoc "):
 				an.Kind, an.Src = "havoc", body
 				for _, part := range splitTop(strings.TrimSpace(body[6:]), ',') {
